@@ -7,6 +7,7 @@ Helper lemmas for `Model/Bids.lean`: what every hook of the framer runner leaves
 -/
 set_option linter.unusedSectionVars false
 set_option linter.unusedVariables false
+set_option linter.unusedSimpArgs false
 namespace Ioflo.Bids
 open Ioflo.Sked
 
@@ -768,5 +769,273 @@ theorem slaveInv_addReady (D : List Nat) (st0 : Nat → Status) (s : St τ (Worl
     rcases List.mem_append.mp hmem with h | h
     · exact hi.fiats o h
     · simp at h; subst h; trivial
+
+/-! ### the entered frames are an outline of the program, on every visit -/
+
+/-- every framer's entered frames are nothing, or the outline of one of its frames as its program gives it -/
+def Outl (w : World τ) : Prop :=
+  ∀ k, (w.framers k).actives = [] ∨ ∃ f, (w.framers k).actives = outline (w.framers k).frames f
+
+/-- an update that changes no framer's program and keeps `Outl` -/
+structure Ok (w w' : World τ) : Prop where
+  frames : ∀ k, (w'.framers k).frames = (w.framers k).frames
+  outl : Outl w → Outl w'
+
+theorem Ok.refl (w : World τ) : Ok w w := ⟨fun _ => rfl, id⟩
+theorem Ok.trans {w w' w'' : World τ} (h1 : Ok w w') (h2 : Ok w' w'') : Ok w w'' :=
+  ⟨fun k => (h2.frames k).trans (h1.frames k), fun h => h2.outl (h1.outl h)⟩
+
+theorem ok_same {w w' : World τ}
+    (h : ∀ k, (w'.framers k).frames = (w.framers k).frames ∧ (w'.framers k).actives = (w.framers k).actives) :
+    Ok w w' := by
+  refine ⟨fun k => (h k).1, fun ho k => ?_⟩
+  rw [(h k).1, (h k).2]; exact ho k
+
+theorem ok_modF (j : Nat) (w : World τ) (g : Fr τ → Fr τ)
+    (hf : ∀ f, (g f).frames = f.frames) (ha : ∀ f, (g f).actives = f.actives) : Ok w (w.modF j g) := by
+  apply ok_same; intro k; simp only [World.modF]; split
+  · rename_i h; subst h; exact ⟨hf _, ha _⟩
+  · exact ⟨rfl, rfl⟩
+
+theorem ok_log (w : World τ) (o : Obs τ) : Ok w (w.log o) := ok_same fun _ => ⟨rfl, rfl⟩
+theorem ok_writeDesire (i : Nat) (c : Control) (w : World τ) : Ok w (writeDesire i c w) := by
+  apply ok_same; intro k; simp only [writeDesire, World.modF, World.log]; split
+  · rename_i h; subst h; exact ⟨rfl, rfl⟩
+  · exact ⟨rfl, rfl⟩
+theorem ok_setStatus (i : Nat) (c : Status) (w : World τ) : Ok w (setStatus i c w) := by
+  apply ok_same; intro k; simp only [setStatus, World.modF]; split
+  · rename_i h; subst h; exact ⟨rfl, rfl⟩
+  · exact ⟨rfl, rfl⟩
+theorem ok_setRecurred (i n : Nat) (w : World τ) : Ok w (setRecurred i n w) := by
+  apply ok_same; intro k; simp only [setRecurred, World.modF]; split
+  · rename_i h; subst h; exact ⟨rfl, rfl⟩
+  · exact ⟨rfl, rfl⟩
+theorem ok_bumpRecurred (i : Nat) (w : World τ) : Ok w (bumpRecurred i w) := by
+  apply ok_same; intro k; simp only [bumpRecurred, World.modF]; split
+  · rename_i h; subst h; exact ⟨rfl, rfl⟩
+  · exact ⟨rfl, rfl⟩
+theorem ok_setPeriod (t : Nat) (p : Option τ) (w : World τ) : Ok w (setPeriod t p w) := by
+  unfold setPeriod; split
+  · apply ok_same; intro k; simp only [World.modF]; split
+    · rename_i h; subst h; exact ⟨rfl, rfl⟩
+    · exact ⟨rfl, rfl⟩
+  · exact Ok.refl w
+theorem ok_bidOne (b : Nat) (c : Control) (p : Option τ) (t : Nat) (w : World τ) : Ok w (bidOne b c p t w) :=
+  Ok.trans (Ok.trans (ok_setPeriod t _ w) (ok_writeDesire t c _)) (ok_log _ _)
+
+theorem ok_bids (b : Nat) (c : Control) (p : Option τ) : ∀ (ts : List Nat) (w : World τ),
+    Ok w (ts.foldl (fun w t => bidOne b c p t w) w)
+  | [], w => Ok.refl w
+  | t :: ts, w => by
+    simp only [List.foldl_cons]
+    exact Ok.trans (ok_bidOne b c p t w) (ok_bids b c p ts _)
+
+theorem ok_setActives_nil (i : Nat) (w : World τ) : Ok w (setActives i [] w) := by
+  refine ⟨fun k => ?_, fun ho k => ?_⟩
+  · simp only [setActives, World.modF]; split
+    · rename_i h; subst h; rfl
+    · rfl
+  · simp only [setActives, World.modF]; split
+    · exact Or.inl rfl
+    · exact ho k
+
+theorem ok_setActives_outline (i f : Nat) (F : List (Frame τ)) (w : World τ) (hF : (w.framers i).frames = F) :
+    Ok w (setActives i (outline F f) w) := by
+  refine ⟨fun k => ?_, fun ho k => ?_⟩
+  · simp only [setActives, World.modF]; split
+    · rename_i h; subst h; rfl
+    · rfl
+  · simp only [setActives, World.modF]; split
+    · rename_i h; subst h; exact Or.inr ⟨f, by simp [hF]⟩
+    · exact ho k
+
+/-- how fiats are carried out keeps the programs and `Outl` -/
+def HOk (H : FiatH τ) : Prop := ∀ b c sl w, Ok w (H b c sl w).1
+
+theorem ok_runActs {H : FiatH τ} (hH : HOk H) (b : Nat) : ∀ (acts : List (Act τ)) (w : World τ), Ok w (runActs H b acts w)
+  | [], w => Ok.refl w
+  | .bid ts c p :: rest, w => by
+    simp only [runActs]; exact Ok.trans (ok_bids b c p ts w) (ok_runActs hH b rest _)
+  | .fiat c sl :: rest, w => by
+    simp only [runActs]; exact Ok.trans (hH b c sl w) (ok_runActs hH b rest _)
+  | .put k v :: rest, w => by
+    simp only [runActs]
+    exact Ok.trans (w' := { w with flags := fun j => if j = k then v else w.flags j }) (ok_same fun _ => ⟨rfl, rfl⟩)
+      (ok_runActs hH b rest _)
+
+theorem ok_evalGuards {H : FiatH τ} (hH : HOk H) (b : Nat) : ∀ (gs : List Guard) (w : World τ), Ok w (evalGuards H b gs w).2
+  | [], w => Ok.refl w
+  | .cond c :: rest, w => by
+    simp only [evalGuards]; split
+    · exact ok_evalGuards hH b rest w
+    · exact Ok.refl w
+  | .fiat c sl :: rest, w => by
+    simp only [evalGuards]; split
+    · exact Ok.trans (hH b c sl w) (ok_evalGuards hH b rest _)
+    · exact hH b c sl w
+
+theorem ok_guardsOf {H : FiatH τ} (hH : HOk H) (i : Nat) : ∀ (l : List Nat) (w : World τ), Ok w (guardsOf H i l w).2
+  | [], w => Ok.refl w
+  | f :: rest, w => by
+    simp only [guardsOf]; split
+    · exact Ok.trans (ok_evalGuards hH i _ w) (ok_guardsOf hH i rest _)
+    · exact ok_evalGuards hH i _ w
+
+theorem ok_checkStart {H : FiatH τ} (hH : HOk H) (i : Nat) (w : World τ) : Ok w (checkStart H i w).2 := by
+  unfold checkStart
+  simp only []
+  refine Ok.trans ?_ (ok_log _ _)
+  split
+  · exact Ok.refl w
+  · exact ok_guardsOf hH i _ w
+
+theorem ok_enterFrames {H : FiatH τ} (hH : HOk H) (i : Nat) : ∀ (l : List Nat) (w : World τ), Ok w (enterFrames H i l w)
+  | [], w => Ok.refl w
+  | f :: rest, w => by
+    simp only [enterFrames]
+    exact Ok.trans (Ok.trans (ok_log w _) (ok_runActs hH i _ _)) (ok_enterFrames hH i rest _)
+
+theorem ok_exitFrames {H : FiatH τ} (hH : HOk H) (i : Nat) : ∀ (l : List Nat) (w : World τ), Ok w (exitFrames H i l w)
+  | [], w => Ok.refl w
+  | f :: rest, w => by
+    simp only [exitFrames]
+    exact Ok.trans (Ok.trans (ok_log w _) (ok_runActs hH i _ _)) (ok_exitFrames hH i rest _)
+
+theorem ok_recurFrames {H : FiatH τ} (hH : HOk H) (i : Nat) : ∀ (l : List Nat) (w : World τ), Ok w (recurFrames H i l w)
+  | [], w => Ok.refl w
+  | f :: rest, w => by
+    simp only [recurFrames]
+    exact Ok.trans (ok_runActs hH i _ _) (ok_recurFrames hH i rest _)
+
+theorem ok_enterAll {H : FiatH τ} (hH : HOk H) (i : Nat) (w : World τ) : Ok w (enterAll H i w) := by
+  unfold enterAll
+  exact Ok.trans (Ok.trans (ok_setActives_outline i 0 _ w rfl) (ok_setRecurred i 0 _)) (ok_enterFrames hH i _ _)
+
+theorem ok_recur {H : FiatH τ} (hH : HOk H) (i : Nat) (w : World τ) : Ok w (recur H i w) :=
+  ok_recurFrames hH i _ w
+
+theorem ok_exitAll {H : FiatH τ} (hH : HOk H) (i : Nat) (w : World τ) : Ok w (exitAll H i w) :=
+  Ok.trans (ok_exitFrames hH i _ w) (ok_setActives_nil i _)
+
+theorem ok_precur {H : FiatH τ} (hH : HOk H) (i : Nat) : ∀ (ts : List Trans) (w : World τ), Ok w (precur H i ts w).1
+  | [], w => Ok.refl w
+  | t :: rest, w => by
+    simp only [precur]
+    split
+    · split
+      · exact ok_precur hH i rest w
+      · split
+        · have h1 := ok_guardsOf hH i (exEn (w.framers i).actives (outline (w.framers i).frames t.target) t.target).2 w
+          have h2 := Ok.trans h1 (ok_exitFrames hH i
+            (exEn (w.framers i).actives (outline (w.framers i).frames t.target) t.target).1.reverse _)
+          have h3 := Ok.trans h2 (ok_setRecurred i 0 _)
+          have h4 := Ok.trans h3 (ok_enterFrames hH i
+            (exEn (w.framers i).actives (outline (w.framers i).frames t.target) t.target).2 _)
+          exact Ok.trans h4 (ok_setActives_outline i t.target _ _ (h4.frames i))
+        · exact Ok.trans (ok_guardsOf hH i _ w) (ok_precur hH i rest _)
+    · exact ok_precur hH i rest w
+
+theorem ok_precurFrames {H : FiatH τ} (hH : HOk H) (i : Nat) : ∀ (l : List Nat) (w : World τ), Ok w (precurFrames H i l w)
+  | [], w => Ok.refl w
+  | f :: rest, w => by
+    simp only [precurFrames]
+    split
+    · exact ok_precur hH i _ w
+    · exact Ok.trans (ok_precur hH i _ w) (ok_precurFrames hH i rest _)
+
+theorem ok_segue {H : FiatH τ} (hH : HOk H) (i : Nat) (w : World τ) : Ok w (segue H i w) :=
+  Ok.trans (ok_bumpRecurred i w) (ok_precurFrames hH i _ _)
+
+/-- **one resumption keeps every program and "the entered frames are nothing or an outline"** -/
+theorem ok_table {H : FiatH τ} (hH : HOk H) (i : Nat) (c : Control) (w : World τ) : Ok w (table H i c w).2 := by
+  have hrun : Ok w (runLive H i w) :=
+    Ok.trans (Ok.trans (ok_segue hH i w) (ok_recur hH i _)) (ok_setStatus i _ _)
+  have hbad : Ok w (abortBad i w) := Ok.trans (ok_writeDesire i .abort w) (ok_setStatus i _ _)
+  have hready : Ok w (readyIdle H i w) := by
+    unfold readyIdle; simp only []; split
+    · exact Ok.trans (ok_checkStart hH i w) (ok_setStatus i _ _)
+    · exact Ok.trans (Ok.trans (ok_checkStart hH i w) (ok_writeDesire i .stop _)) (ok_setStatus i _ _)
+  have hstart : Ok w (startIdle H i w) := by
+    unfold startIdle; simp only []; split
+    · exact Ok.trans (Ok.trans (Ok.trans (Ok.trans (ok_checkStart hH i w) (ok_writeDesire i .run _))
+        (ok_enterAll hH i _)) (ok_recur hH i _)) (ok_setStatus i _ _)
+    · exact Ok.trans (Ok.trans (ok_checkStart hH i w) (ok_writeDesire i .stop _)) (ok_setStatus i _ _)
+  have hstop : Ok w (stopLive H i w) :=
+    Ok.trans (Ok.trans (ok_writeDesire i .stop w) (ok_exitAll hH i _)) (ok_setStatus i _ _)
+  have habort : ∀ b, Ok w (abortAny H i b w) := by
+    intro b; unfold abortAny
+    refine Ok.trans (Ok.trans ?_ (ok_writeDesire i .abort _)) (ok_setStatus i _ _)
+    split
+    · exact ok_exitAll hH i w
+    · exact Ok.refl w
+  have hwd : ∀ c', Ok w (writeDesire i c' w) := fun c' => ok_writeDesire i c' w
+  unfold table
+  simp only []
+  cases c <;> simp only [] <;> (repeat' split) <;> first | assumption | exact hwd _ | exact habort _ | exact Ok.refl w
+
+theorem hok_noFiat : HOk (noFiat (τ := τ)) := fun _ _ _ _ => ok_same fun _ => ⟨rfl, rfl⟩
+
+theorem hok_fiatD : ∀ (d : Nat) (chain : List Nat), HOk (fiatD (τ := τ) d chain)
+  | 0, _ => by simp only [fiatD]; exact hok_noFiat
+  | d+1, chain => by
+    intro b c sl w
+    simp only [fiatD]
+    split
+    · exact ok_same fun _ => ⟨rfl, rfl⟩
+    · exact Ok.trans (ok_table (hok_fiatD d (b :: chain)) sl c w) (ok_log _ _)
+
+theorem ok_send (ph : Phase) (i : Nat) (c : Control) (st : τ) (w : World τ) :
+    Ok w ((FramerEnv (τ := τ)).send ph i c st w).2 := by
+  show Ok w ((table (fiatTop w.n) i c (w.log (.recv ph i c))).2.log _)
+  exact Ok.trans (Ok.trans (ok_log w _) (ok_table (hok_fiatD _ _) i c _)) (ok_log _ _)
+
+/-- with the programs `F` -/
+def OutlP (F : Nat → List (Frame τ)) (w : World τ) : Prop := (∀ k, (w.framers k).frames = F k) ∧ Outl w
+
+theorem Ok.outlP {F : Nat → List (Frame τ)} {w w' : World τ} (h : Ok w w') (hp : OutlP F w) : OutlP F w' :=
+  ⟨fun k => (h.frames k).trans (hp.1 k), h.outl hp.2⟩
+
+theorem outlP_step (F : Nat → List (Frame τ)) : StepInv (FramerEnv (τ := τ)) (fun s => OutlP F s.world) where
+  after := by
+    intro s e rest hi _
+    show OutlP F (after FramerEnv s e rest).world
+    rw [after_world]
+    split
+    · exact (ok_send _ _ _ _ _).outlP hi
+    · exact hi
+  afterFinal := fun s e rest hi _ => (ok_send .final e.id .abort s.storeStamp s.world).outlP hi
+  advance := fun s hi => hi
+  halfAdvance := fun s hi => hi
+  clear := fun s hi => hi
+
+/-! ### list order: the frames of an outline run one after the other, each in the world its over frames left -/
+
+theorem runActs_append (H : FiatH τ) (b : Nat) : ∀ (a1 a2 : List (Act τ)) (w : World τ),
+    runActs H b (a1 ++ a2) w = runActs H b a2 (runActs H b a1 w)
+  | [], a2, w => rfl
+  | .bid ts c p :: rest, a2, w => by simp only [List.cons_append, runActs]; exact runActs_append H b rest a2 _
+  | .fiat c sl :: rest, a2, w => by simp only [List.cons_append, runActs]; exact runActs_append H b rest a2 _
+  | .put k v :: rest, a2, w => by simp only [List.cons_append, runActs]; exact runActs_append H b rest a2 _
+
+theorem enterFrames_append (H : FiatH τ) (i : Nat) : ∀ (l1 l2 : List Nat) (w : World τ),
+    enterFrames H i (l1 ++ l2) w = enterFrames H i l2 (enterFrames H i l1 w)
+  | [], l2, w => rfl
+  | f :: rest, l2, w => by simp only [List.cons_append, enterFrames]; exact enterFrames_append H i rest l2 _
+
+theorem recurFrames_append (H : FiatH τ) (i : Nat) : ∀ (l1 l2 : List Nat) (w : World τ),
+    recurFrames H i (l1 ++ l2) w = recurFrames H i l2 (recurFrames H i l1 w)
+  | [], l2, w => rfl
+  | f :: rest, l2, w => by simp only [List.cons_append, recurFrames]; exact recurFrames_append H i rest l2 _
+
+theorem exitFrames_append (H : FiatH τ) (i : Nat) : ∀ (l1 l2 : List Nat) (w : World τ),
+    exitFrames H i (l1 ++ l2) w = exitFrames H i l2 (exitFrames H i l1 w)
+  | [], l2, w => rfl
+  | f :: rest, l2, w => by simp only [List.cons_append, exitFrames]; exact exitFrames_append H i rest l2 _
+
+/-- acts that end with a bid `c` for `t` leave `t.desire = c` -/
+theorem runActs_last_bid (H : FiatH τ) (b : Nat) (pre : List (Act τ)) (t : Nat) (c : Control) (p : Option τ) (w : World τ) :
+    des (runActs H b (pre ++ [.bid [t] c p]) w) t = c := by
+  rw [runActs_append]
+  simp [runActs, bidOne, writeDesire, des, World.modF, World.log]
 
 end Ioflo.Bids
